@@ -1,6 +1,6 @@
 (* C05: reload passes are serialized, in registration order, exactly once per Reloadable. *)
 From Coq Require Import List NArith Bool Arith Lia.
-From GS Require Import LTS Supervisor SupAccept SupProps SupInv SupStop.
+From GS Require Import LTS Supervisor SupAccept SupProps SupInv SupStop SupTrig SupGate.
 Import ListNotations.
 
 Definition ev2 (i : nat) : list event := [EReloadCall i; EReloadRet i].
@@ -104,6 +104,7 @@ Inductive rm_effect (c : config) (s s' : state) : Prop :=
 | re_accept : rm s = RmIdle -> rm s' = rm_after c 0 -> revs s' = revs s -> rm_effect c s s'
 | re_call j : rm s = RmNext j -> rm s' = RmIn j -> hist s' = EReloadCall j :: hist s -> rm_effect c s s'
 | re_ret j : rm s = RmIn j -> rm s' = rm_after c (S j) -> hist s' = EReloadRet j :: hist s -> rm_effect c s s'
+| re_start : pre_run s -> (rm s' = RmIdle \/ rm s' = RmAbsent) -> revs s' = revs s -> rm_effect c s s'
 | re_other : revs s' = revs s ->
              (rm s' = rm s \/ (rm s = RmIdle /\ rm s' = RmDrain) \/ (rm s = RmDrain /\ rm s' = RmDone)) ->
              rm_effect c s s'.
@@ -125,18 +126,19 @@ Proof.
   all: try (eapply re_accept; [eassumption|cbn; reflexivity|reflexivity]; fail).
   all: try (eapply re_call; [eassumption|cbn; reflexivity|cbn; reflexivity]; fail).
   all: try (eapply re_ret; [eassumption|cbn; reflexivity|cbn; reflexivity]; fail).
+  all: try (apply re_start; [right; assumption|cbn; destruct (any_spec reloadable c); auto|reflexivity]; fail).
 Qed.
 
 Lemma InvReload_init c : InvReload c (init c).
-Proof. exists 0. cbn. destruct (any_spec reloadable c); reflexivity. Qed.
+Proof. exists 0. reflexivity. Qed.
 
 Lemma repeat_pass_S p k : repeat_pass p k ++ p = repeat_pass p (S k).
 Proof. induction k as [|k IH]; cbn [repeat_pass]; [now rewrite app_nil_r|]. now rewrite <- app_assoc, IH. Qed.
 
-Lemma InvReload_step c s l s' : InvReload c s -> step c s l = Some s' -> InvReload c s'.
+Lemma InvReload_step c s l s' : InvAbs s -> InvReload c s -> step c s l = Some s' -> InvReload c s'.
 Proof.
-  intros [k Hk] H. unfold InvReload.
-  destruct (step_rm_effect _ _ _ _ H) as [Ei Ea Er | j En Ei Eh | j Ei Ea Eh | Er Em].
+  intros IA [k Hk] H. unfold InvReload.
+  destruct (step_rm_effect _ _ _ _ H) as [Ei Ea Er | j En Ei Eh | j Ei Ea Eh | Ep Em Er | Er Em].
   - (* accept: a new pass begins *)
     rewrite Ei in Hk. rewrite Ea, Er, Hk. exists k.
     destruct (rm_after_cases c 0) as [[j Ej]|Ej]; rewrite Ej.
@@ -157,13 +159,23 @@ Proof.
       exists k. repeat split; auto. now rewrite P.
     + exists (S k). rewrite Hr', <- (rm_after_idle c (S j) ltac:(lia) Ej), <- one_pass_partial.
       apply repeat_pass_S.
+  - (* Run() entered: the manager is created (or not) *)
+    destruct (IA Ep) as (Ea & _). rewrite Ea in Hk. rewrite Er. exists k.
+    destruct Em as [E|E]; rewrite E; exact Hk.
   - (* nothing about reloads *)
     rewrite Er. exists k.
     destruct Em as [E|[[E E']|[E E']]]; [now rewrite E|rewrite E in Hk; now rewrite E'|rewrite E in Hk; now rewrite E'].
 Qed.
 
 Lemma InvReload_reachable c s : reachable_sup c s -> InvReload c s.
-Proof. apply sup_inv; [apply InvReload_init|apply InvReload_step]. Qed.
+Proof.
+  intros Hr.
+  assert (G : InvAbs s /\ InvReload c s).
+  { revert s Hr. apply sup_inv.
+    - split; [apply InvAbs_init|apply InvReload_init].
+    - intros s0 l s1 [IA I] Hs. split; [eapply InvAbs_step; eassumption|eapply InvReload_step; eassumption]. }
+  apply G.
+Qed.
 
 Lemma prefixb_app_r a b c0 : prefixb a b = true -> prefixb a (b ++ c0) = true.
 Proof.
